@@ -58,6 +58,11 @@ Theorem C11_lookup_by_normal_form : forall rt m p1 p2,
   quick_match rt m p1 = quick_match rt m p2.
 Proof. exact quick_spelling. Qed.
 
+(* InterceptAll(q), q not blank: every request is answered as the request q would be - the request path is not looked at *)
+Theorem C11_intercept_ignores_request_path : forall rt m p1 p2,
+  o_intercept (ropts rt) <> [] -> quick_match rt m p1 = quick_match rt m p2.
+Proof. exact quick_intercept. Qed.
+
 Theorem C11_end_to_end : forall progs hooks o ss s h m p1 p2,
   sys_build o ss = Ok s ->
   format_path (o_strict o) p1 = format_path (o_strict o) p2 ->
@@ -77,3 +82,4 @@ Print Assumptions C11_strict_distinguishes.
 Print Assumptions C11_legacy_F03_refuted.
 Print Assumptions C11_lookup_by_normal_form.
 Print Assumptions C11_end_to_end.
+Print Assumptions C11_intercept_ignores_request_path.
